@@ -607,6 +607,7 @@ class CaseResult:
         self.unsupported = []
         self.crosscheck = dict(samples=0, compared=0, mismatches=[])
         self.vacuity = dict(cover=None, canary=None)
+        self.requires = []
         self.functions = {}
         self.inlined = set()
         self.dropped = set()
@@ -782,6 +783,7 @@ def run_case(contract, case, tier="quick", known=None, do_crosscheck=True, seed=
             pass
         s = _tactic_solver(list(p0.axioms) + list(p0.pc), 5000)
         res.vacuity["cover"] = str(s.check())
+        res.requires = [_short_term(c) for c in cx0.requires][:16]       # the case's preconditions, for the evidence
     except Exception as e:
         res.vacuity["cover"] = "error: %s" % e
     if do_crosscheck and case.replay == "model" and not res.unsupported and res.error is None and \
